@@ -429,3 +429,67 @@ theorem bufEntry_step {cap : Nat} (hcap : 0 < cap) (e : BufEntry α) (x : α) (r
       exact ⟨by simp, by simpa [BufEntry.view] using hv.2⟩
 
 end KV.Sort
+
+namespace KV.Sort
+open List
+variable {α : Type}
+
+theorem readAt_length {data : List α} {o r : Nat} (h : o + r ≤ data.length) : (readAt data (o, r)).length = r := by
+  simp only [readAt, length_take, length_drop]; omega
+
+/-- `Entry::Read` at file level is `BufEntry.read` on the slice of the file the entry owns -/
+theorem fileEntry_read (data : List α) (cap o r : Nat) (h : o + r ≤ data.length) :
+    (FileEntry.read data cap o r).map (FileEntry.abs data) = BufEntry.read cap (readAt data (o, r)) := by
+  unfold FileEntry.read BufEntry.read
+  by_cases hr : r = 0
+  · subst hr
+    simp [readAt]
+  · have hlen := readAt_length h
+    rw [if_neg hr]
+    cases hp : readAt data (o, r) with
+    | nil => rw [hp] at hlen; simp at hlen; omega
+    | cons x xs =>
+      simp only [Option.map_some, FileEntry.abs, Option.some.injEq]
+      rw [← hp]
+      by_cases hc : cap < r
+      · rw [if_pos hc]
+        have h1 : readAt data (o, cap) = take cap (readAt data (o, r)) := by
+          simp only [readAt, take_take]; rw [Nat.min_eq_left (by omega)]
+        have h2 : readAt data (o + cap, r - cap) = drop cap (readAt data (o, r)) := by
+          simp only [readAt, drop_take, drop_drop]
+        rw [h1, h2]
+      · rw [if_neg hc]
+        have h1 : readAt data (o, r) = take cap (readAt data (o, r)) := by
+          rw [take_of_length_le (by omega)]
+        have h2 : readAt data (o + r, r - r) = drop cap (readAt data (o, r)) := by
+          rw [drop_of_length_le (by omega)]; simp [readAt]
+        rw [← h1, ← h2]
+
+theorem fileEntry_read_inv (data : List α) (cap o r : Nat) (e : FileEntry α)
+    (he : FileEntry.read data cap o r = some e) : e.offset + e.remaining = o + r := by
+  unfold FileEntry.read at he
+  split at he
+  · cases he
+  · simp only [Option.some.injEq] at he
+    subst he
+    simp only
+    split <;> omega
+
+/-- **file-level entries refine buffered entries**: `Increment` commutes with the abstraction
+"what is still on disk is `data[offset_, offset_ + remaining_)`", and the entry keeps owning the
+same end of slice. -/
+theorem fileEntry_increment (data : List α) (cap : Nat) (e : FileEntry α)
+    (h : e.offset + e.remaining ≤ data.length) :
+    (e.increment data cap).map (FileEntry.abs data) = (FileEntry.abs data e).increment cap ∧
+    ∀ e', e.increment data cap = some e' → e'.offset + e'.remaining = e.offset + e.remaining := by
+  unfold FileEntry.increment BufEntry.increment
+  simp only [FileEntry.abs]
+  cases hd : e.buf.drop 1 with
+  | nil =>
+    simp only
+    exact ⟨fileEntry_read data cap e.offset e.remaining h, fun e' he' => fileEntry_read_inv data cap _ _ e' he'⟩
+  | cons b bs =>
+    simp only [Option.map_some, FileEntry.abs, Option.some.injEq]
+    exact ⟨trivial, fun e' he' => by cases he'; rfl⟩
+
+end KV.Sort
